@@ -11,10 +11,15 @@
    makes the lexical containment theorems meaningful physically (see within_physical in Props.v; the harness checks the
    physical side on the OS back end).
 
-   Two shapes of the ".." test are modelled, selected by [cv]:
-     cv = false : strings.Contains(destPath, "..") and nested destination = Join(Dir(p), Stem(p))   (tree without the C07 fix)
-     cv = true  : element test (no element equal to "..") and nested destination = sanitise(Stem(p), Dir(p))  (C07 fix D9)
-   The harness detects which shape the tree has through the export_verif.go hook; every theorem is proved for both. *)
+   The model is PARAMETERISED by a record of facts [zfacts] which translator-c02/cmd/zipslip2coq regenerates from
+   zip.go / filepath.go on every run (coq/C02/Gen.v, [generated]): the shape of every test of the sanitiser (argument
+   order of Join, equality shortcut, early return for ".", kind of ".." test and what it is applied to, prefix tests with
+   or without the separator), and in unzip / unzipZippedFile / sanitiseConvertedZipExtractPath / unzipNestedZipFiles: Clean
+   first, sanitiser called for every entry, the path not rewritten afterwards, what MkDir / OpenFile / Chtimes / Rm are
+   applied to, re-sanitisation of the converted path (CutPrefix + sanitiser) before anything touches it, regular files and
+   directories only, nested destination through the sanitiser.  Switches with a modelled alternative change the
+   behaviour of the model; the others ("shape facts") are demanded by [unzip_ok].  The theorems are proved for every record
+   satisfying the conditions they need ([san_ok], [nested_ok], [unzip_ok]) and instantiated on [generated] in Props.v. *)
 From Coq Require Import List ZArith Bool String Ascii.
 From GU Require Import C02.Path.
 Import ListNotations.
@@ -44,18 +49,84 @@ Inductive archive :=
 
 Definition is_nonempty_archive (a : archive) : bool := match a with ANil => false | _ => true end.
 
-(* ---- sanitiseZipExtractPath (zip.go:169-185) ---- *)
+(* ---- facts regenerated from the source (Gen.v) ---- *)
+Inductive ddshape :=
+| DDSubstring    (* strings.Contains(x, "..") *)
+| DDElemEq       (* hasParentDirectoryElement: some element == ".." *)
+| DDElemPrefix   (* ... strings.HasPrefix(element, "..") *)
+| DDNone.        (* no parent-reference test *)
+
+Record zfacts := mkFacts {
+  (* sanitiseZipExtractPath *)
+  sa_join_dest_first : bool;   (* destPath = filepath.Join(destination, filePath) *)
+  sa_dot_early : bool;         (* an early accepting return when destination == "." *)
+  sa_eq_shortcut : bool;       (* if destPath == destination { return } *)
+  sa_dd : ddshape;             (* kind of the parent-reference test guarding the prefix tests *)
+  sa_dd_on_destpath : bool;    (* applied to destPath (false: to the cleaned entry name) *)
+  sa_prefix_sep : bool;        (* every prefix test is HasPrefix(destPath, destination + separator or "/") *)
+  (* unzip *)
+  uz_clean_first : bool;       (* destination = filepath.Clean(destination) before MkDir and the loop *)
+  uz_sanitise_always : bool;   (* filePath comes from the sanitiser for EVERY entry (false: only if the name contains "../") *)
+  uz_path_untouched : bool;    (* filePath is assigned by the sanitiser call only *)
+  uz_mkdir_after_sanitise : bool;
+  uz_dir_mkdir_path : bool;    (* directory entry: MkDir(filePath), directoryInfo[filePath] *)
+  uz_file_mkdir_dir : bool;    (* file entry: MkDir(filepath.Dir(filePath)) *)
+  uz_zf_args : bool;           (* unzipZippedFile(ctx, destination, filePath, ...) *)
+  uz_nested_arg_path : bool;   (* unzipNestedZipFiles(ctx, filePath, ...) *)
+  (* unzipZippedFile / sanitiseConvertedZipExtractPath *)
+  zf_resanitise : bool;        (* if destinationPath != dest { destinationPath, err = sanitiseConvertedZipExtractPath(...) } *)
+  zf_resanitise_first : bool;  (* no file-system call on the converted path before it *)
+  zf_regular_only : bool;      (* file-system calls are OpenFile and Chtimes only (no Symlink / Link / ...) *)
+  zf_ops_on_converted : bool;  (* OpenFile(destinationPath, ...), Chtimes(destinationPath, ...) *)
+  sc_cut_then_sanitise : bool; (* CutPrefix(converted, destination), !found -> malicious, sanitiser on the remainder (false: bare HasPrefix) *)
+  (* unzipNestedZipFiles, FilepathStem *)
+  nz_dest_sanitised : bool;    (* destination = sanitiser(FilepathStem(p), filepath.Dir(p)) (false: filepath.Join) *)
+  nz_rm_nested : bool;         (* fs.Rm(nestedZipFile) after fs.unzip(ctx, nestedZipFile, destination, ...) *)
+  fs_stem_base_ext : bool      (* FilepathStem = TrimSuffix(Base(fp), Ext(fp)) *)
+}.
+
+(* ---- sanitiseZipExtractPath (zip.go) ---- *)
 Definition sep : bytes := [slash].                       (* fs.PathSeparator() on linux, both back ends *)
-Definition has_dotdot_elem (p : bytes) : bool := existsb is_dotdot (split p).
 
-Definition dotdot_test (cv : bool) (p : bytes) : bool :=
-  if cv then has_dotdot_elem p else contains dotdot p.
+Definition dd_shape_test (sh : ddshape) (x : bytes) : bool :=
+  match sh with
+  | DDSubstring => contains dotdot x
+  | DDElemEq => existsb is_dotdot (split x)
+  | DDElemPrefix => existsb (has_prefix dotdot) (split x)
+  | DDNone => false
+  end.
 
-Definition sanitise (cv : bool) (d name : bytes) : option bytes :=     (* None = ErrMalicious *)
-  let p := join2 d name in
-  if beqb p d then Some p
-  else if negb (dotdot_test cv p) && (has_prefix (d ++ sep) p || has_prefix (d ++ [slash]) p) then Some p
+Definition dotdot_test (f : zfacts) (p name : bytes) : bool :=
+  dd_shape_test (sa_dd f) (if sa_dd_on_destpath f then p else clean name).
+
+Definition prefix_test (f : zfacts) (d p : bytes) : bool :=
+  if sa_prefix_sep f then has_prefix (d ++ sep) p || has_prefix (d ++ [slash]) p else has_prefix d p.
+
+Definition sanitise (f : zfacts) (d name : bytes) : option bytes :=     (* None = ErrMalicious *)
+  let p := if sa_join_dest_first f then join2 d name else join2 name d in
+  if sa_dot_early f && beqb d [dot] then Some p
+  else if sa_eq_shortcut f && beqb p d then Some p
+  else if negb (dotdot_test f p name) && prefix_test f d p then Some p
   else None.
+
+(* the sanitiser as the loop of unzip applies it to an entry *)
+Definition sanitise_entry (f : zfacts) (d name : bytes) : option bytes :=
+  if uz_sanitise_always f || contains [dot; dot; slash] name then sanitise f d name else Some (join2 d name).
+
+(* what each theorem needs of the facts *)
+Definition dd_present (sh : ddshape) : bool := match sh with DDNone => false | _ => true end.
+Definition dd_is_substring (sh : ddshape) : bool := match sh with DDSubstring => true | _ => false end.
+
+Definition san_ok (f : zfacts) : bool :=
+  sa_join_dest_first f && negb (sa_dot_early f) && dd_present (sa_dd f) && sa_dd_on_destpath f && sa_prefix_sep f.
+
+Definition nested_ok (f : zfacts) : bool := nz_dest_sanitised f || dd_is_substring (sa_dd f).
+
+Definition unzip_ok (f : zfacts) : bool :=
+  san_ok f && nested_ok f && uz_clean_first f && uz_sanitise_always f && uz_path_untouched f && uz_mkdir_after_sanitise f
+  && uz_dir_mkdir_path f && uz_file_mkdir_dir f && uz_zf_args f && uz_nested_arg_path f
+  && zf_resanitise f && zf_resanitise_first f && zf_regular_only f && zf_ops_on_converted f && sc_cut_then_sanitise f
+  && nz_rm_nested f && fs_stem_base_ext f.
 
 (* ZipFileExtensions (zip.go:50); ".tar.gz" can never equal filepath.Ext *)
 Definition zip_exts : list bytes :=
@@ -89,22 +160,27 @@ Definition lres : Type := st * list bytes * list bytes * res.   (* state, fileLi
 
 Section Unzip.
   Variable transcode : bytes -> option bytes.   (* determineUnzippedFilepath; None = an error (ErrInvalid / ErrUnexpected) *)
-  Variable cv : bool.                           (* shape of the ".." test, see above *)
+  Variable f : zfacts.                          (* facts regenerated from the source *)
   Variable recursive : bool.                    (* limits.ApplyRecursively() *)
   Variable membackend : bool.                   (* MemMapFs creates missing parents on OpenFile; the OS fails *)
 
   (* sanitiseConvertedZipExtractPath + the guard [destinationPath != dest] (C02 fix) *)
   Definition resanitise (d p q : bytes) : option bytes :=
-    if beqb q p then Some q
-    else match cut_prefix d q with
-         | None => None
-         | Some rel => sanitise cv d rel
-         end.
+    if negb (zf_resanitise f) then Some q
+    else if beqb q p then Some q
+    else if sc_cut_then_sanitise f then
+           match cut_prefix d q with
+           | None => None
+           | Some rel => sanitise f d rel
+           end
+         else if has_prefix (d ++ sep) q then Some q else None.
+
+  Definition unzip_dest (dest : bytes) : bytes := if uz_clean_first f then clean dest else dest.   (* unzip :275 *)
 
   (* destination of a nested archive, unzipNestedZipFiles (:384) then unzip's Clean (:275) *)
   Definition nested_dest (p : bytes) : option bytes :=
-    if cv then match sanitise cv (dir p) (stem p) with Some nd => Some (clean nd) | None => None end
-    else Some (clean (join2 (dir p) (stem p))).
+    if nz_dest_sanitised f then match sanitise f (dir p) (stem p) with Some nd => Some (unzip_dest nd) | None => None end
+    else Some (unzip_dest (join2 (dir p) (stem p))).
 
   Definition chtimes_all (dl : list bytes) (s : st) : st :=      (* preserveDirectoriesTimestamps; map order: any *)
     fold_left (fun s p => add_op (OChtimes p) s) dl s.
@@ -114,7 +190,7 @@ Section Unzip.
   Definition file_body (d name : bytes) (is_arch : bool)
              (run_inner : bytes -> st -> lres) (cont : st -> list bytes -> list bytes -> lres)
              (s : st) (fl dl : list bytes) : lres :=
-    match sanitise cv d name with          (* both calls, :290-300, are the same pure function *)
+    match sanitise_entry f d name with     (* both calls, :290-300, are the same pure function *)
     | None => (s, fl, dl, RMalicious)
     | Some p =>
       let zipname := recursive && is_zip_name name in
@@ -125,6 +201,10 @@ Section Unzip.
         match transcode p with                                                         (* :424 *)
         | None => (s1, fl1, dl, ROther)
         | Some q =>
+          (* a tree that creates the converted path's directory before re-sanitising it (zf_resanitise_first = false) *)
+          match (if zf_resanitise_first f || beqb q p then Some s1 else mkdir (dir q) s1) with
+          | None => (s1, fl1, dl, RCollide)
+          | Some s1 =>
           match resanitise d p q with
           | None => (s1, fl1, dl, RMalicious)
           | Some q' =>
@@ -158,6 +238,7 @@ Section Unzip.
                 else cont s3 (if is_zip_name name then fl1 ++ [p] else fl1) dl         (* :356-359 *)
               else cont s3 fl1 dl
           end
+          end
         end
       end
     end.
@@ -167,7 +248,7 @@ Section Unzip.
     match a with
     | ANil => (s, fl, dl, RNil)
     | AEntry name KDir rest =>
-        match sanitise cv d name with
+        match sanitise_entry f d name with
         | None => (s, fl, dl, RMalicious)
         | Some p =>
           let fl1 := if recursive && is_zip_name name then fl else fl ++ [p] in
@@ -185,7 +266,7 @@ Section Unzip.
 
   (* VFS.unzip at depth 0 (:252-381) *)
   Definition unzip (dest : bytes) (a : archive) (s0 : st) : st * list bytes * res :=
-    let d := clean dest in                                                             (* :275 *)
+    let d := unzip_dest dest in                                                        (* :275 *)
     match mkdir d s0 with                                                              (* :276 *)
     | None => (s0, [], RCollide)
     | Some s1 =>
@@ -238,17 +319,17 @@ Inductive case :=
 Definition opens_of (l : list op) : list bytes :=
   flat_map (fun o => match o with OOpenTrunc p => [p] | _ => [] end) l.
 
-Definition check_case (c : case) : bool :=
+Definition check_case_f (f : zfacts) (c : case) : bool :=
   match c with
   | CPath f a b out =>
       beqb out (match f with
                 | FClean => clean a | FJoin => join2 a b | FDir => dir a
                 | FBase => base a | FExt => ext a | FStem => stem a end)
-  | CSan cv d name out => opt_bytes_eqb (sanitise cv d name) out
+  | CSan _ d name out => opt_bytes_eqb (sanitise f d name) out
   | CUnzip cv recursive membackend dest_exists dest a tr r flist opens allops =>
       let d := clean dest in
       let s0 := mkSt ((if dest_exists then [d] else []) ++ ancs d) [] [] in
-      let '(s, fl, r') := unzip (tr_of tr) cv recursive membackend dest a s0 in
+      let '(s, fl, r') := unzip (tr_of tr) f recursive membackend dest a s0 in
       match r' with
       | RCollide => true
       | _ => res_eqb r r' && list_eqb beqb fl flist && list_eqb beqb (opens_of (rev (ops s))) opens
